@@ -16,7 +16,7 @@ CHECKS = {
            "assignments over 2-3 values for n=5(6), all lattice sequences up to n=7) against a Floyd-Warshall minimax "
            "reference",
            "Every (graph, labeling) of the stated families - complete as order types for n<=4, incl. zero weights, "
-           "non-identity index arrays, weights scaled by 1e-25..1e25 - is fitted by the real code on re-used model "
+           "non-identity and duplicate-identifier index arrays, weights scaled by 1e-25..1e25, all 8! orders of an 8-mark Golomb ruler - is fitted by the real code on re-used model "
            "objects and the whole forest (costs bit-exact, links, labels, conquest order) is compared with the "
            "reference. Exhaustive within bounds."),
  "C02": _e("bounded-exhaustive exploration; the oracle enumerates ALL spanning trees and accepts the boundary set of "
@@ -32,12 +32,12 @@ CHECKS = {
  "C04": _e("bounded-exhaustive exploration: all strict edge orders, all arrangements of a generic point set under 40 "
            "metrics, numerical-regime tables, all lattice data for KNN",
            "All tie-free order types for n<=4 (thorough: all 10! for n=5), every dissimilarity metric, near-equal / "
-           "huge / tiny regimes are trained and re-predicted by the real code; KNN-supervised on all lattice "
+           "huge / tiny regimes and one tie-free chain of 1100 samples (optimum paths > 1000 arcs deep) are trained and re-predicted by the real code; KNN-supervised on all lattice "
            "sequences with ties, validation sets and max_k."),
  "C05": _e("explicit-state model checking of the real Heap: BFS to fixpoint from the empty heap (reference priority "
            "queue in lock-step) plus depth-bounded BFS from every valid heap arrangement of up to 9 (10) keys",
            "Every reachable joint state (real Heap fields x reference queue) for capacities 1..5 (thorough ..7), both "
-           "policies, all key tie patterns incl. FLOAT_MAX/inf, and every operation sequence of length <= 2 (3) from "
+           "policies, all key tie patterns incl. FLOAT_MAX/inf, re-insertion of removed elements, and every operation sequence of length <= 2 (3) from "
            "each of the 1198 (4558) valid heaps of 6..9 (10) distinct keys built through real inserts; every "
            "transition calls the real method, every state is drained on a copy.", engine="explorer-B"),
  "C06": _e("bounded-exhaustive evaluation of every metric on all ordered vector pairs of the domain grids (caller "
@@ -51,13 +51,13 @@ CHECKS = {
            "replay from a restored pristine module state; all metric call histories of length <= 3",
            "Every history of <=3 operations over {metric call on any ordered (also aliased) pair, caller overwrites "
            "its vector in place, float32 evaluation} for all 47 metrics; BFS to fixpoint (depth<=4) over model "
-           "operations incl. fits of unrelated models for the four kinds; fresh-twice differential; each transition "
+           "operations incl. fits of unrelated models and matrices holding inf/nan for the four kinds; fresh-twice differential; each transition "
            "is a real call checked for caller-array bit-identity and history-independent value.", engine="explorer-B"),
  "C08": _e("bounded-exhaustive evaluation of the fixed axiom table on all ordered pairs and all ordered triples of "
            "the domain grids (pair matrix filled by real calls)",
            "Finite/symmetric/non-negative/zero-self on all ordered pairs and triangle on all ordered triples of the "
            "class grids (incl. the tolerance ladder around 1e-8 / 1e-5 and zero-containing vectors) for the rows of "
-           "the axiom table; finiteness and symmetry also on vectors of length 32..1024."),
+           "the axiom table; finiteness and symmetry also on vectors of length 32..1024; every zero also as -0.0."),
  "C09": _e("exhaustive enumeration of all batches (<=3) and all two-call histories over a query pool for every fitted "
            "model of the bounded families; model-state hash closes the history space",
            "For each of the four kinds and every lattice training sequence (KNN/unsupervised also with k forced), "
@@ -69,7 +69,7 @@ CHECKS = {
            "For every dataset in the bounds the distance file is produced by pre_compute_distance (.txt and .csv) and "
            "every ordered train/test index split is trained and predicted twice (file-fed vs feature-fed); node "
            "state, order, best_k, clusters and predictions must be bit-identical; get_distances() vs the metric on "
-           "all ordered pairs."),
+           "all ordered pairs; metrics with non-zero self-distance and index sets that overlap or repeat a row."),
  "C11": _e("bounded-exhaustive metamorphic exploration: all n! training orders x five monotone metric transforms; "
            "monotone ladder of 1.8e5 distances per identifier",
            "Every permutation of every tie-free training set in the bounds (integer pools, a pool with cancelling "
@@ -91,7 +91,7 @@ CHECKS = {
  "C14": _e("bounded-exhaustive exploration of (fitted model, query, batch position) against the exhaustive k-nearest "
            "max-min rule with every valid tie choice",
            "Every model of the lattice families (every k also forced) x every query (training copies, midpoints, "
-           "far) x every batch position 0..n, plus a 1e-11-scaled family; membership in the set of outcomes allowed "
+           "far, and the critical points where the reference's answer changes, located by bisection) x every batch position 0..n, plus a 1e-11-scaled family; membership in the set of outcomes allowed "
            "by the exhaustive rule."),
  "C15": _e("bounded-exhaustive exploration of SemiSupervisedOPF.fit over all graphs on labeled+unlabeled nodes, "
            "minimax reference + differential vs SupervisedOPF",
@@ -101,7 +101,7 @@ CHECKS = {
  "C16": _e("stateless choice exploration: every criterion answer sequence scripted through the intercepted accuracy / "
            "cut routine (also on previously used instances); plus recorded natural criterion values",
            "All answer sequences over the criterion alphabets (with near-tie and tiny positive values) for every k "
-           "range up to 4 on fresh and on previously fitted instances, and all lattice training/validation sets "
+           "range up to 4 on fresh and on previously fitted instances, k ranges up to 9 and 12 on larger sets, and all lattice training/validation sets "
            "with the real criterion recorded; oracle = smallest best candidate and final model built with it.",
            engine="explorer-D"),
  "C17": _e("stateless choice exploration of every RNG answer sequence of SupervisedOPF.learn by prefix replay (also "
@@ -121,7 +121,7 @@ CHECKS = {
            "Every enabled sequence of {save, load into a fresh object built with another metric, predict original, "
            "predict loaded, save loaded} up to depth 3 (4) for 4 kinds x 47 metrics (x pre-computed mode), depth 5 "
            "(6) for the default metric, all saves to one path; the original's full state hashed around save, the "
-           "loaded state compared field by field, predictions compared; separate-interpreter load.",
+           "loaded state compared field by field, predictions compared; distance file rewritten between save and load; dotted file names; separate-interpreter load.",
            engine="explorer-B"),
  "C20": _e("bounded-exhaustive enumeration of all (labels, predictions) vectors and small matrices against exact "
            "rational definitions; dtype x class-count sweep; in-place two-call histories",
